@@ -177,9 +177,17 @@ def check_deck(deck, seed, flags=(), lattice=(), n_points=60, want=('C01', 'C08'
     return fails, stats, f
 
 
+def _fnum(x):
+    t = str(x).lower().replace('d', 'e')
+    m = re.fullmatch(r'([-+]?(?:\d+\.?\d*|\.\d+))([-+]\d+)', t)
+    if m:
+        t = m.group(1) + 'e' + m.group(2)
+    return float(t)
+
+
 def _same_number(a, b):
     try:
-        return abs(float(a.lower().replace('d', 'e')) - float(str(b).lower().replace('d', 'e'))) < 1e-12
+        return abs(_fnum(a) - _fnum(b)) < 1e-12
     except ValueError:
         return False
 
